@@ -167,6 +167,7 @@ func crashDrive(ctx *Ctx) error {
 	fmt.Sscanf(ctx.Arg("pairs", "20"), "%d", &pairsPerCase)
 	timed := 3
 	fmt.Sscanf(ctx.Arg("timed", "3"), "%d", &timed)
+	fmt.Sscanf(ctx.Arg("timedmaxus", "40000"), "%d", &timedMaxUS)
 	r := rand.New(rand.NewSource(ctx.Seed))
 	if ctx.Replay != "" {
 		b, err := os.ReadFile(ctx.Replay)
@@ -197,6 +198,7 @@ func crashDrive(ctx *Ctx) error {
 }
 
 var replayCrash *crashPlan
+var timedMaxUS = 40000
 
 func pointFamily(family, point string) bool {
 	switch family {
@@ -250,7 +252,7 @@ func runCrashCase(ctx *Ctx, r *rand.Rand, c SDCase, family, prop string, pairsPe
 		all = all[:pairsPerCase]
 	}
 	for i := 0; i < timed; i++ {
-		all = append(all, crashPlan{Point: "timed", KillUS: 200 + r.Intn(40000)})
+		all = append(all, crashPlan{Point: "timed", KillUS: 200 + r.Intn(timedMaxUS)})
 	}
 	if replayCrash != nil {
 		all = []crashPlan{*replayCrash}
@@ -454,7 +456,28 @@ func judgeCrash(ctx *Ctx, id, prop string, c SDCase, res *writerResult, storeDir
 	}
 	core, oerr := hub.TryOpenCore(storeDir)
 	if oerr != nil {
-		ctx.Out.Viol(id, prop, "reopen-failed", "the store does not open after the crash: "+firstLine(oerr.Error()), nil, oerr.Error(), map[string]any{"acked": res.acked, "inflight": res.inflight})
+		// Known dependency defect (badger v4.2.0): a kill between creating a memtable file and sizing it
+		// leaves an empty NNNNN.mem; the next Open fails with "while opening memtables ... Create a new
+		// file" but repairs the file while failing, so the second Open succeeds. The hub ignores the
+		// open error and dies with a nil dereference. Classified narrowly; the case is then judged on
+		// the second attempt like any other.
+		first := oerr.Error()
+		if strings.Contains(first, "Create a new file") && (strings.Contains(first, "while opening memtables") || strings.Contains(first, "db.vlog.open")) {
+			core, oerr = hub.TryOpenCore(storeDir)
+			if oerr == nil {
+				ctx.Out.Viol(id, prop, "reopen-first-attempt-fails-empty-memtable-file", "the first start after the kill fails (badger Open: '... Create a new file' for an empty memtable or value log file left by the kill); the second start opens the store", nil, firstLine(first), map[string]any{"acked": res.acked, "inflight": res.inflight})
+			}
+		}
+	}
+	if oerr != nil {
+		if keep := os.Getenv("VERIF_KEEP_FAILED"); keep != "" {
+			_ = exec.Command("cp", "-a", storeDir, filepath.Join(keep, "failed-"+id)).Run()
+		}
+		hl := ""
+		if i := strings.Index(oerr.Error(), "hub error log:"); i >= 0 {
+			hl = " | " + firstLine(oerr.Error()[i:])
+		}
+		ctx.Out.Viol(id, prop, "reopen-failed", "the store does not open after the crash: "+firstLine(oerr.Error())+hl, nil, oerr.Error(), map[string]any{"acked": res.acked, "inflight": res.inflight})
 		return
 	}
 	closed := false
